@@ -24,5 +24,7 @@ def run(ctx, rep):
     rep.trusted = ["rows of class `invariant` rest on stated value-level invariants (listed in evidence samples)",
                    "dependency crates (cabac, byteorder, crc32fast, zstd) are not searched for failure constructs"]
     site.check_sites(F, rep, "X1", [PC + "decompress_deflate_stream"], 20)
+    from . import lin as _lin
+    _lin.x4(ctx, rep)
     guard.x2(ctx, rep)
     ub.p3(ctx, rep, rule="X3")
